@@ -253,14 +253,20 @@ func (app *Application) executeProposal(ctx *api.Context, state *governanceState
 			return fmt.Errorf("failed to set pending upgrade: %w", err)
 		}
 
-		// Locally apply the upgrade proposal.
+		// Locally apply the upgrade proposal, once the block is committed. The block may be
+		// executed as a proposal that is never decided and that must not leave a local upgrade
+		// descriptor behind.
 		if upgrader := ctx.AppState().Upgrader(); upgrader != nil {
-			if err = upgrader.SubmitDescriptor(&proposal.Content.Upgrade.Descriptor); err != nil {
-				ctx.Logger().Error("failed to locally apply the upgrade descriptor",
-					"err", err,
-					"descriptor", proposal.Content.Upgrade.Descriptor,
-				)
-			}
+			descriptor := proposal.Content.Upgrade.Descriptor
+			logger := ctx.Logger()
+			ctx.BlockContext().OnCommit(func() {
+				if err := upgrader.SubmitDescriptor(&descriptor); err != nil {
+					logger.Error("failed to locally apply the upgrade descriptor",
+						"err", err,
+						"descriptor", descriptor,
+					)
+				}
+			})
 		}
 	case proposal.Content.CancelUpgrade != nil:
 		cancelingProposal, err := state.Proposal(ctx, proposal.Content.CancelUpgrade.ProposalID)
@@ -279,14 +285,18 @@ func (app *Application) executeProposal(ctx *api.Context, state *governanceState
 			return fmt.Errorf("failed to remove pending upgrade: %w", err)
 		}
 
-		// Locally cancel the upgrade proposal.
+		// Locally cancel the upgrade proposal, once the block is committed (see above).
 		if upgrader := ctx.AppState().Upgrader(); upgrader != nil {
-			if err = upgrader.CancelUpgrade(&upgradeProposal.Descriptor); err != nil {
-				ctx.Logger().Error("failed to locally cancel the upgrade",
-					"err", err,
-					"descriptor", upgradeProposal.Descriptor,
-				)
-			}
+			descriptor := upgradeProposal.Descriptor
+			logger := ctx.Logger()
+			ctx.BlockContext().OnCommit(func() {
+				if err := upgrader.CancelUpgrade(&descriptor); err != nil {
+					logger.Error("failed to locally cancel the upgrade",
+						"err", err,
+						"descriptor", descriptor,
+					)
+				}
+			})
 		}
 	case proposal.Content.ChangeParameters != nil:
 		// To not violate the consensus, change parameters proposals should be ignored when
